@@ -1,6 +1,7 @@
 import HickoryVerif.Drv.Proto
 import HickoryVerif.Model.NameWire
 import HickoryVerif.Model.NameText
+import HickoryVerif.Model.LowerName
 
 namespace HickoryVerif.Drv.C04
 open HickoryVerif HickoryVerif.Drv
@@ -76,6 +77,51 @@ def handle (toks : List String) : Option String :=
   | ["from_ascii", s] => do
     let s ← parseHex s
     pure (showOutcome showName (Name.parseAscii s))
+  | ["lcmp", a, b] => do
+    let a ← parseName a; let b ← parseName b
+    pure (ordStr (LowerName.cmp (LowerName.new a) (LowerName.new b)))
+  | ["leq", a, b] => do
+    let a ← parseName a; let b ← parseName b
+    pure (showBool (LowerName.eq (LowerName.new a) (LowerName.new b)))
+  | ["lhasheq", a, b] => do
+    let a ← parseName a; let b ← parseName b
+    pure (showBool (LowerName.hashInput (LowerName.new a) == LowerName.hashInput (LowerName.new b)))
+  | ["lzone_of", a, b] => do
+    let a ← parseName a; let b ← parseName b
+    pure (showBool (LowerName.zoneOfCase (LowerName.new a) (LowerName.new b)))
+  | ["lbase_name", a] => do
+    let a ← parseName a
+    pure (showOutcome showName (LowerName.new a).baseName)
+  | ["linto_wildcard", a] => do
+    let a ← parseName a
+    pure ("ok " ++ showName (LowerName.new a).intoWildcard)
+  | ["lread", buf, pos] => do
+    let buf ← parseHex buf; let pos ← pos.toNat?
+    pure (showOutcome (fun (n, p) => showName (LowerName.new n) ++ " " ++ toString p) (Name.readName buf pos))
+  | ["rrkey_cmp", a, ta, b, tb] => do
+    let a ← parseName a; let b ← parseName b; let ta ← ta.toNat?; let tb ← tb.toNat?
+    pure (ordStr (LowerName.rrKeyCmp (LowerName.new a, ta) (LowerName.new b, tb)))
+  | ["eq_ignore_root", a, b] => do
+    let a ← parseName a; let b ← parseName b
+    pure (showBool (LowerName.eqIgnoreRoot a b))
+  | ["eq_ignore_root_case", a, b] => do
+    let a ← parseName a; let b ← parseName b
+    pure (showBool (LowerName.eqIgnoreRootCase a b))
+  | ["zone_of_case", a, b] => do
+    let a ← parseName a; let b ← parseName b
+    pure (showBool (LowerName.zoneOfCase a b))
+  | ["lbl_cmp", l, r] => do
+    let l ← parseHex l; let r ← parseHex r
+    pure (ordStr (LowerName.labelCmp true l r))
+  | ["lbl_cmpcase", l, r] => do
+    let l ← parseHex l; let r ← parseHex r
+    pure (ordStr (LowerName.labelCmp false l r))
+  | ["lbl_eq", l, r] => do
+    let l ← parseHex l; let r ← parseHex r
+    pure (showBool (LowerName.labelEq l r))
+  | ["lbl_hasheq", l, r] => do
+    let l ← parseHex l; let r ← parseHex r
+    pure (showBool (LowerName.labelHashInput l == LowerName.labelHashInput r))
   | _ => none
 
 def step (s : State) (toks : List String) : State × String :=
